@@ -131,10 +131,10 @@ impl Check for Systems {
         "systems"
     }
     fn rule(&self) -> String {
-        "newton and secant on F(x) = A(x-r) + c N(x-r): dimension 1-4 x 6 matrices (one singular) x N in {0, square, sin} x c x root {0, (3,-2,..), (1e3,..)} x start {origin; r + d u for d in {0, 1e-2, 0.2}, u over the axes and the diagonal} x tolerance x finite-difference width x iteration cap; signature = (method, outcome class, matrix kind, start class)".into()
+        "newton and secant on F(x) = A(x-r) + c N(x-r): dimension 1-4 x 6 matrices (one singular) x N in {0, square, sin} x c x root {0, (3,-2,..), (1e3,..)} x start {origin; r + d u for d in {0, 5e-3, 1e-2, 0.2} (below, at and above the finite-difference width), u over the axes and the diagonal} x tolerance x finite-difference width x iteration cap; signature = (method, outcome class, matrix kind, start class)".into()
     }
     fn axes(&self, t: Tier) -> Value {
-        json!({"matrices": MATS, "nonlinearity": NONLIN, "c": [0.0, 0.1], "tol": t.pick(vec![1e-3, 1e-10], vec![1e-3, 1e-6, 1e-10]), "h": t.pick(vec![1e-4], vec![1e-2, 1e-4, 1e-6]), "cap": [1, 2, 50], "dist": [0.0, 1e-2, 0.2]})
+        json!({"matrices": MATS, "nonlinearity": NONLIN, "c": [0.0, 0.1], "tol": t.pick(vec![1e-3, 1e-10], vec![1e-3, 1e-6, 1e-10]), "h": t.pick(vec![1e-2, 1e-4], vec![1e-2, 1e-4, 1e-6]), "cap": [1, 2, 50], "dist": [0.0, 5e-3, 1e-2, 0.2]})
     }
     fn points(&self, t: Tier) -> Vec<SysPt> {
         let mut v = vec![];
@@ -146,7 +146,7 @@ impl Check for Systems {
                         for root in 0..3 {
                             let mut starts: Vec<(Option<usize>, f64)> = vec![(None, 0.0), (Some(0), 0.0)];
                             for dir in 0..=dim {
-                                for &dist in &[1e-2, 0.2] {
+                                for &dist in &[5e-3, 1e-2, 0.2] {
                                     if t == Tier::Quick && dir != 0 && dir != dim {
                                         continue;
                                     }
@@ -155,7 +155,7 @@ impl Check for Systems {
                             }
                             for (start_dir, dist) in starts {
                                 for &tol in &t.pick(vec![1e-3, 1e-10], vec![1e-3, 1e-6, 1e-10]) {
-                                    for &h in &t.pick(vec![1e-4], vec![1e-2, 1e-4, 1e-6]) {
+                                    for &h in &t.pick(vec![1e-2, 1e-4], vec![1e-2, 1e-4, 1e-6]) {
                                         if method == "newton" && h != 1e-4 {
                                             continue;
                                         }
